@@ -5,7 +5,8 @@ import HyperModel.Proofs.Indexer
 
 The code as it is violates the property (known findings, re-demonstrated on the real indexer in
 every run): `c31_counterexample_stale_after_gap`, `c31_counterexample_restart_after_gap`,
-`c31_counterexample_redelivery`, `c31_counterexample_window_change` prove the negations on the
+`c31_counterexample_redelivery`, `c31_counterexample_late_delivery`,
+`c31_counterexample_window_change` prove the negations on the
 model with the same witnesses the harness replays.
 
 PARTIAL theorems (the strongest true statements): for a fresh indexer with any valid window, the
@@ -66,6 +67,15 @@ theorem c31_counterexample_restart_after_gap :
 theorem c31_counterexample_redelivery :
     let s := run (fresh 3) [.notify (blk 3 0), .notify (blk 4 1), .notify (blk 3 0)]
     getLatestBlock s = some (blk 3 0) ∧ getLatestBlock (step s (.restart 3)) = some (blk 4 1) := by
+  decide
+
+/-- late delivery (known finding `stale-block-below-window-served-after-late-delivery`): window 2,
+notify 5, 6, then 4 — height 4 is already below the window (4, 6] but is inserted and served; a
+restart reloads the store in order and drops it. -/
+theorem c31_counterexample_late_delivery :
+    let s := run (fresh 2) [.notify (blk 5 0), .notify (blk 6 1), .notify (blk 4 2)]
+    getBlockByHeight s 4 = some (blk 4 2) ∧ getTransaction s 2 = .found 2 40 400 ∧
+    getBlockByHeight (step s (.restart 2)) 4 = none := by
   decide
 
 /-- consecutive heights, restart onto a smaller window: the block left at `last - window` in the
